@@ -74,6 +74,7 @@ def _c13(fx, col):
     T.rule_envelope_provenance(fx, col)
     T.rule_cooldown_owned(fx, col)
     T.rule_txn_closed(fx, col)
+    T.rule_node_stable(fx, col)
     O.rule_tag_table(fx, col)
     O.rule_inuse_fsm(fx, col)
 
@@ -162,7 +163,7 @@ prop('C18', 'panics in user code leave the container consistent',
 
 
 prop('C12', 'containers are isolated',
-     [I.rule_addr_guard, I.rule_addr_before_gen, I.rule_own_storage, O.rule_pay_cas, O.rule_mp],
+     [I.rule_addr_guard, I.rule_addr_before_gen, I.rule_own_storage, O.rule_pay_cas, O.rule_mp, T.rule_node_stable],
      'Decides: a helper produces and hands over a replacement only when the reader\'s published address, re-read in the '
      'same retry iteration, equals the address of the cell being written, and the exchange expects exactly the '
      'generation that was matched (ADDR-GUARD, GEN-REVALIDATE); the reader publishes the address before the generation '
@@ -180,7 +181,7 @@ def _ord_c11(fx, col):
 
 
 prop('C11', 'thread churn is safe and bounded',
-     [O.rule_inuse_fsm, N.rule_reuse_first, T.rule_cooldown_owned, _raii_only, _ord_c11, T.rule_node_some, P.rule_next_once],
+     [O.rule_inuse_fsm, N.rule_reuse_first, T.rule_cooldown_owned, _raii_only, _ord_c11, T.rule_node_some, T.rule_node_stable, P.rule_next_once],
      'Decides: the ownership flag of a node only moves along the four legal edges, the release edge guarded by '
      'in_use == COOLDOWN and active_writers == 0 and performed by compare_exchange (INUSE-FSM); a node is allocated only '
      'after a complete failed attempt to reuse one, is initialised before it is published, and is claimed only by a '
